@@ -83,7 +83,27 @@ var c07Hangs int
 
 // c07Guard runs one case under recover() and a watchdog.  A hung call cannot be killed, so after three
 // hangs the remaining cases are not run (each would cost the full watchdog time on a busy CPU).
-func c07Guard(fn func() string) string {
+func c07Guard(fn func() string) string { return c07GuardT(2*time.Second, fn) }
+
+// c07Returns reports whether fn returns within d (used for single handler calls inside a scenario).
+func c07Returns(d time.Duration, fn func()) bool {
+	done := make(chan struct{})
+	go func() {
+		defer close(done)
+		defer func() { recover() }()
+		fn()
+	}()
+	tm := time.NewTimer(d)
+	defer tm.Stop()
+	select {
+	case <-done:
+		return true
+	case <-tm.C:
+		return false
+	}
+}
+
+func c07GuardT(d time.Duration, fn func() string) string {
 	if c07Hangs >= 3 {
 		return "skipped-after-3-hangs"
 	}
@@ -96,7 +116,7 @@ func c07Guard(fn func() string) string {
 		}()
 		ch <- fn()
 	}()
-	tm := time.NewTimer(2 * time.Second)
+	tm := time.NewTimer(d)
 	defer tm.Stop()
 	select {
 	case s := <-ch:
@@ -129,9 +149,13 @@ func c07Run(t *testing.T, handle func(entry string, n []uint64, f []string) stri
 			fmt.Fprintln(w, "badline")
 			continue
 		}
-		fmt.Fprintln(w, c07Guard(func() string { return handle(f[0], c07Nums(f[1]), f[2:]) }))
+		d := 2 * time.Second
+		if strings.HasPrefix(f[0], "bk") { // backlog scenarios contain their own per-call watchdogs
+			d = 30 * time.Second
+		}
+		fmt.Fprintln(w, c07GuardT(d, func() string { return handle(f[0], c07Nums(f[1]), f[2:]) }))
 	}
 }
 
 func c07Ok(toks ...string) string { return "ok " + strings.Join(toks, " ") }
-func c07U(n uint64) string      { return strconv.FormatUint(n, 10) }
+func c07U(n uint64) string        { return strconv.FormatUint(n, 10) }
